@@ -1,8 +1,13 @@
 //! C17 — action state reflects its dispatch history under any completion order.
 //!
-//! case `(0 variant events)`: one `ArcAction`/`Action` (variants 0..3) or leptos_server
+//! case `(0 variant events [restore])`: one `ArcAction`/`Action` (variants 0..3) or leptos_server
 //! `ArcServerAction`/`ServerAction` over a mock server function (variants 4, 5; dispatched through
 //! the wrapper's own methods), whose futures are oneshot receivers completed by the schedule;
+//! restore `(p r)`: variants 0..3 with p = 1 are built by the `…_with_value(Some(r), …)`
+//! constructors; variants 4, 5 are created under an owner providing a `ServerActionError`
+//! (p = 1: for the server function's path, the payload being the URL encoding of
+//! `Err(ServerError(r))` produced by `ServerFnUrlError::to_url`; p = 2: same path, undecodable
+//! payload; p = 0: another path), the way the router restores a failed no-JS form post;
 //! case `(1 events [mv])`: one `ArcMultiAction` (mv 0), `ArcServerMultiAction` (1) or
 //! `ServerMultiAction` (2). For the server wrappers a negative result is an `Err(..)`.
 //! The observation is one entry per event: the action's public state after the event.
@@ -11,11 +16,13 @@ use crate::{
     srvfn::{self, of_res, to_res, Call, Res},
 };
 use futures::channel::oneshot;
-use leptos_server::{ArcServerAction, ArcServerMultiAction, ServerAction, ServerMultiAction};
+use leptos_server::{
+    ArcServerAction, ArcServerMultiAction, ServerAction, ServerActionError, ServerMultiAction,
+};
 use reactive_graph::{
     actions::{Action, ActionAbortHandle, ArcAction, ArcMultiAction, ArcSubmission},
     computed::ArcMemo,
-    owner::Owner,
+    owner::{provide_context, Owner},
     traits::{Get, GetUntracked},
 };
 use std::sync::{Arc, Mutex};
@@ -98,7 +105,7 @@ pub fn run(c: &Sexp) -> Sexp {
     reset();
     let owner = Owner::new();
     let out = owner.with(|| match c.at(0).num() {
-        0 => single(c.at(1).num(), c.at(2)),
+        0 => single(c.at(1).num(), c.at(2), c.at(3)),
         1 => multi(c.at(1), c.at(2).num()),
         _ => Lst(vec![]),
     });
@@ -107,7 +114,24 @@ pub fn run(c: &Sexp) -> Sexp {
     out
 }
 
-fn single(variant: i64, events: &Sexp) -> Sexp {
+/// what the server puts in the URL for a failed form post, and the router reads back
+fn url_error(path: &str, r: i64) -> (String, String) {
+    use server_fn::error::ServerFnUrlError;
+    let e = ServerFnUrlError::new(path, to_res(r).unwrap_err());
+    let url = e.to_url("http://localhost/page").expect("a URL");
+    let get = |key: &str| {
+        url.query_pairs()
+            .find(|(k, _)| k == key)
+            .map(|(_, v)| v.to_string())
+            .expect("the error is in the query")
+    };
+    (get("__path"), get("__err"))
+}
+
+fn single(variant: i64, events: &Sexp, restore: &Sexp) -> Sexp {
+    let rp = restore.list().first().map(|x| x.num());
+    let rv = restore.at(1).num();
+    let v0 = if rp == Some(1) { Some(rv) } else { None };
     let slot: Slot = Arc::new(Mutex::new(None));
     let f = {
         let slot = slot.clone();
@@ -116,14 +140,34 @@ fn single(variant: i64, events: &Sexp) -> Sexp {
             async move { rx.await.unwrap_or(-1) }
         }
     };
-    let (act, local) = match variant {
-        0 => (Act::Arc(ArcAction::new(f)), false),
-        1 => (Act::Arena(Action::new(f)), false),
-        2 => (Act::Arc(ArcAction::new_unsync(f)), true),
-        3 => (Act::Arena(Action::new_local(f)), true),
-        4 => (Act::SrvArc(ArcServerAction::new()), false),
+    let scope = Owner::new();
+    if variant >= 4 {
+        use server_fn::ServerFn;
+        match rp {
+            Some(1) => {
+                let (path, err) = url_error(Call::PATH, rv);
+                scope.with(|| provide_context(ServerActionError::new(&path, &err)));
+            }
+            Some(2) => scope.with(|| provide_context(ServerActionError::new(Call::PATH, "%%not base64%%"))),
+            Some(_) => {
+                let (_, err) = url_error("/api/other", -7);
+                scope.with(|| provide_context(ServerActionError::new("/api/other", &err)));
+            }
+            None => {}
+        }
+    }
+    let (act, local) = scope.with(|| match (variant, v0) {
+        (0, None) => (Act::Arc(ArcAction::new(f)), false),
+        (0, v) => (Act::Arc(ArcAction::new_with_value(v, f)), false),
+        (1, None) => (Act::Arena(Action::new(f)), false),
+        (1, v) => (Act::Arena(Action::new_with_value(v, f)), false),
+        (2, None) => (Act::Arc(ArcAction::new_unsync(f)), true),
+        (2, v) => (Act::Arc(ArcAction::new_unsync_with_value(v, f)), true),
+        (3, None) => (Act::Arena(Action::new_local(f)), true),
+        (3, v) => (Act::Arena(Action::new_local_with_value(v, f)), true),
+        (4, _) => (Act::SrvArc(ArcServerAction::new()), false),
         _ => (Act::Srv(ServerAction::new()), false),
-    };
+    });
     let server = variant >= 4;
     let pending = match &act {
         Act::Arc(a) => a.pending(),
